@@ -42,11 +42,17 @@ type world struct {
 	stats  *coreStats
 	ctx    context.Context
 	nextPl int
+	// shape of the history (operation kinds and operands, no hashes) and what makes it non-trivial
+	shape         string
+	forked        bool
+	mergedOverlap bool
 }
 
 type coreStats struct {
 	Histories, Ops, Appends, Joins, JoinNs, Loads, Iters, SetIds, TieHists, Forks, Exchanges int
 	OpHist                                                                                 map[string]int
+	DistinctNontrivial                                                                     int
+	shapes                                                                                 map[string]bool
 }
 
 func sortFnOf(k string) iface.EntrySortFn {
@@ -167,11 +173,33 @@ func (w *world) doAppend(i int, pc int) {
 		return
 	}
 	fmt.Fprintf(w.out, "A %d %d %s\n", i, pc, w.al(e))
+	w.shape += fmt.Sprintf("A%d.%d;", i, pc)
 	w.stats.Appends++
 }
 
 func (w *world) doJoin(i, j, size int) {
 	res := "ok"
+	if i != j && w.reps[i].id == w.reps[j].id {
+		a, b := w.reps[i].log, w.reps[j].log
+		if a.Len() > 0 && b.Len() > 0 {
+			common, onlyA, onlyB := 0, 0, 0
+			for _, e := range a.GetEntries().Slice() {
+				if b.Has(e.GetHash()) {
+					common++
+				} else {
+					onlyA++
+				}
+			}
+			onlyB = b.Len() - common
+			if onlyA > 0 && onlyB > 0 {
+				w.forked = true
+				if common > 0 {
+					w.mergedOverlap = true
+				}
+			}
+		}
+	}
+	w.shape += fmt.Sprintf("J%d.%d.%d;", i, j, size)
 	func() {
 		defer func() {
 			if r := recover(); r != nil {
@@ -403,8 +431,11 @@ func unknownCid(r *rand.Rand) cid.Cid {
 var pcChoices = []int{0, 0, 0, 1, 1, 2, 3, 4, 5, 8, 16, 64, -3, 1000}
 
 func runCore(seed int64, nHist, nOps int, out *bufio.Writer, thorough bool) *coreStats {
-	stats := &coreStats{OpHist: map[string]int{}}
+	stats := &coreStats{OpHist: map[string]int{}, shapes: map[string]bool{}}
 	for h := 0; h < nHist; h++ {
+		if skipCase(h) {
+			continue
+		}
 		hs := seed*1000003 + int64(h)
 		r := rand.New(rand.NewSource(hs))
 		w := &world{api: mockstore.New(), ids: hx.NewIdents(r), alias: map[string]string{}, byAl: map[string]iface.IPFSLogEntry{},
@@ -509,6 +540,12 @@ func runCore(seed int64, nHist, nOps int, out *bufio.Writer, thorough bool) *cor
 		fmt.Fprintf(out, "X end\n")
 		stats.Exchanges++
 		stats.Histories++
+		if w.forked && w.mergedOverlap {
+			if !stats.shapes[w.shape] {
+				stats.shapes[w.shape] = true
+				stats.DistinctNontrivial++
+			}
+		}
 		out.Flush()
 	}
 	return stats
